@@ -259,6 +259,29 @@ def run_writer(ctx, case):
                                                   model.show(m, 'w')))
         return
     text = head + body + tail
+
+    def again():
+        # the sentence is still the sentence after it was written: the same
+        # call on the same tree writes the same text (a writer that keeps
+        # quoted or mapped values in the tree fails this on the second call)
+        if fmt == 'discobrackets':
+            # documented in the writer: it substitutes the terminals for
+            # numbers in the tree it is given (not judged)
+            return False
+        second = probe.RecordingStream()
+        try:
+            with common.captured():
+                getattr(TO, fmt)(live, second, **params)
+        except Exception as e:
+            _fail('%s-second-write-differs' % fmt, 'second call raised %r' % e)
+            return True
+        ctx.hook('second write of the same tree')
+        body2 = second.mark()
+        if body2 != body:
+            _fail('%s-second-write-differs' % fmt, 'first %r | second %r'
+                  % (body[:200], body2[:200]))
+            return True
+        return False
     # ---- decode and compare ----------------------------------------------------------------
     try:
         if fmt == 'export':
@@ -295,6 +318,8 @@ def run_writer(ctx, case):
             _fail('terminals-not-the-sentence', 'wrote %r, sentence is %r '
                   '(params %r)' % (text[:200], want[:8], params))
             return
+        if again():
+            return
         return finish(ctx, case, m, disc, none)
     if len(dec) != 1:
         _fail('%s-tree-count' % fmt, '%d trees decoded from one writer call'
@@ -326,6 +351,8 @@ def run_writer(ctx, case):
         if body.count('\n') != 1 or body.count('\t') != 1:
             _fail('discobrackets-layout', 'text %r' % body[:100])
             return
+    if again():
+        return
     finish(ctx, case, m, disc, none)
 
 
@@ -422,7 +449,9 @@ def make_tree(rng, small=False):
                           'cat-punct-char', 'pos-punct-char', 'pos-decorated',
                           'cat-digit-first', 'cat-at-x', 'word-unicode',
                           'word-keyword', 'word-percent',
-                          'word-typographic-punct'])
+                          'word-typographic-punct', 'word-backslash',
+                          'word-python-literal', 'morph-python-literal',
+                          'pos-keyword'])
     r = rng.random()
     if r < 0.25:
         spec['root']['l'] = rng.choice(['TOP', 'ROOT', 'S', 'VROOT+S'])
